@@ -60,6 +60,7 @@ class Contract(object):
     self.opq_isinstance, self.opq_methods, self.str_methods, self.map_shapes = {}, {}, {}, {}
     self.uf = {}
     self.obj_lt = {}
+    self.hooks = {}                        # ("in"|"set"|"attr"|"method", kind[, name]) -> fn
     self.custom_concretize = None          # callable(contract, ob, model, ev) -> args dict
     self.raw_axioms = None                 # callable(interp) -> [z3 Bool] assumed
     self._loc = None
@@ -138,7 +139,7 @@ def _function_frame(ip, contract, fv, argvals):
   return fr
 
 
-def run_paths(contract, registry=None, concrete_args=None, max_paths=4000, timeout_ms=3000):
+def run_paths(contract, registry=None, concrete_args=None, max_paths=4000, timeout_ms=400):
   """Enumerates the paths of the real function under the contract; returns
   (obligations, unsupported messages, number of paths, assumed-contract names)."""
   loc = contract.locate()
@@ -369,7 +370,7 @@ def verify_contract(contract, registry=None, timeout_ms=10000):
       rp = {"obligation": ob.name, "replayed": False, "why": res.detail}
     if res.status == "unsat" and ob.decisions not in vac_checked:
       vac_checked.add(ob.decisions)
-      if solve.satisfiable(ob.assumptions, 800) == "unsat":
+      if solve.satisfiable(ob.assumptions, 120) == "unsat":
         run.vacuous.append(ob.name)
     run.results.append(ObResult(ob, res, rp))
   run.time_s = time.time() - t0
